@@ -4,6 +4,8 @@ from harness.props import rowgen
 
 class C01(rowgen.RowGenProp):
     id = "C01"
+    fuzz_kinds = {"ring"}
+    fuzz_times = False
     lean_module = "Wheatley.Props.C01"
     theorems = ["Wheatley.C01.permute_complete", "Wheatley.C01.start_row_complete",
                 "Wheatley.C01.gen_rows_complete", "Wheatley.C01.gen_rows_each_bell_once",
